@@ -89,6 +89,11 @@ def strata(tier):
                       [{"p": "prim", "v": "tw"}, {"p": "mol"}, {"p": "mol"}, {"p": "mol"}], [{"p": "mol"}, {"p": "mol"}, {"p": "mol"}],
                       [{"p": "prim", "v": "tw"}, {"p": "map"}, {"p": "list"}]):
             yield {"rules": [{"path": PC.mkpath(parts), "cond": {"c": "null"}, "cast": cast}], "doc": TWINS, "cls": "twin-keys"}
+    for parts, _doc in PC.systematic_paths(tier):
+        if _doc is PC.BIG_DOC:
+            yield {"rules": [{"path": parts, "cond": {"c": "null"}, "cast": [["str", "int"]]},
+                             {"path": PC.mkpath([{"p": "prim", "v": "wide"}, {"p": "map"}, {"p": "prim", "v": "s"}]),
+                              "cond": PC.L("value", "less_than", 100), "cast": [["str", "int"]]}], "doc": PC.BIG_DOC, "cls": "big"}
     for j in range(60 if tier == "quick" else 300):
         yield gen(G.rng_for("C15-strata", j), tier)
 
